@@ -32,13 +32,8 @@ PickD == /\ stage = 1 /\ stage' = 2
 
 Rip(q) ==
   /\ stage = 2 /\ q \in Qg \ {QStart, QAccept}
-  /\ LET Q2 == Qg \ {q}
-         R2 == dg[<<q, q>>]
-     IN /\ Qg' = Q2
-        /\ dg' = [pq \in DOMAIN dg |->
-                    IF pq[1] \in Q2 \ {QAccept} /\ pq[2] \in Q2 \ {QStart}
-                    THEN Simp(<<"sum", <<"cat", dg[<<pq[1], q>>], <<"cat", <<"star", R2>>, dg[<<q, pq[2]>>]>>>>, dg[pq]>>)
-                    ELSE dg[pq]]
+  /\ Qg' = Qg \ {q}
+  /\ dg' = RipLabels(Qg, dg, q, QStart, QAccept)
   /\ UNCHANGED <<D, stage>>
 
 Next == PickF \/ PickD \/ \E q \in Qg : Rip(q)
